@@ -839,6 +839,11 @@ class VCGen:
             elif ta == tb:
                 if ta.k == 'list' and not s.cur.get('list_eq_structural', False) and not s.specmode:
                     r = s.eqlist(a, ta, b, tb)
+                elif ta.k == 'lref' and not s.specmode:
+                    # Python's == on two list objects compares their CONTENT (identity is `is`); only contracts compare references
+                    la, lta = s.deref(a, ta, st)
+                    lb, ltb = s.deref(b, tb, st)
+                    r = s.eqlist(la, lta, lb, ltb)
                 else:
                     r = a == b
             elif {ta, tb} <= {INT, REAL, BOOL}:
